@@ -1,5 +1,5 @@
 import NTV.Proofs.Lemmas.InvProofs
-import NTV.Proofs.Lemmas.KronProofs
+import NTV.Proofs.Lemmas.KronFull
 import NTV.Proofs.Lemmas.ElemProofs
 /-! # C19 — property theorems (modular inverse, perfect power, Kronecker symbol, primes)
 Only property-level statements live here; helper lemmas are in `NTV.Proofs.Lemmas.*`. -/
@@ -62,5 +62,24 @@ theorem perfectPower_full (n : Int) :
         have hb : NTV.Elem.bits N = N.log2 + 1 := by simp [NTV.Elem.bits]; omega
         have : 2 ^ (N.log2 + 1) ≤ 2 ^ k' := Nat.pow_le_pow_right (by norm_num) (by omega)
         omega
+
+open NumberTheorySymbols in
+/-- Kronecker symbol, full (unbounded integers, hence all machine integers: no intermediate value of
+the i64 routine exceeds its inputs in absolute value). For b = 0: 1 iff a = ±1. For b ≠ 0, written
+b = s·2^v·b' with s = ±1 and b' odd (always possible: `kronecker_decomposition`), the model returns
+(a/s)·(a/2)^v·J(a | b') where (a/−1) = −1 iff a < 0, (a/2) = 0, 1, −1 for a even, a ≡ ±1, a ≡ ±3 (mod 8)
+and J is Mathlib's Jacobi symbol — the definition of the Kronecker symbol. The un-repaired code
+(sign flipped whenever a < 0) does not satisfy this: it returned 1 for a = −1, b = 3. -/
+theorem kronecker_full (a : Int) (s : Int) (hs : s = 1 ∨ s = -1) (v : Nat) (b' : Nat) (hb' : b' % 2 = 1) :
+    NTV.Kron.kronecker a (s * 2 ^ v * (b' : Int)) =
+      (if s = -1 ∧ a < 0 then -1 else 1) * NTV.Kron.kronTwo a ^ v * J(a | b') :=
+  NTV.Kron.kronecker_eq a s hs v b' hb'
+
+theorem kronecker_zero_modulus (a : Int) : NTV.Kron.kronecker a 0 = if a = 1 ∨ a = -1 then 1 else 0 :=
+  NTV.Kron.kronecker_zero a
+
+theorem kronecker_decomposition (b : Int) (hb : b ≠ 0) :
+    ∃ (s : Int) (v : Nat) (b' : Nat), (s = 1 ∨ s = -1) ∧ b' % 2 = 1 ∧ b = s * 2 ^ v * (b' : Int) :=
+  NTV.Kron.decomp_exists b hb
 
 end NTV.C19
